@@ -72,7 +72,7 @@ def handle : List String → String
       let rs := runOuts w ops
       let items := rs.map (fun (r : World c × Out) => showOut r.2 ++ "/" ++ showState r.1)
       let wf := (rs.getLast?.map (·.1)).getD w
-      " ".intercalate items ++ s!" peak={wf.peak} up={showErrOpt wf.upErr} left={wf.dst.todo.length}"
+      " ".intercalate items ++ s!" peak={wf.peak} up={showErrOpt wf.upErr} left={wf.dst.todo.length}{if wf.dst.desync then " DESYNC" else ""}"
     | _, _, _, _, _ => "bad-op"
   | "rle" :: rest =>
     -- rle <m1> <m2> … : <hex1> <hex2> …   — feed input i_k with max_length m_k to Codec.expand
